@@ -480,6 +480,12 @@ def panic_sites(node):
             what = "assert!" if "assert" in exp else ("unreachable!" if "unreachable" in exp else (
                 "panic!" if "panic" in exp else cal.split("::")[-1] + "()"))
             out.append((what, x))
+        if kind(x) == "Index":
+            bty = str(peel(x["base"]).get("ty", "")).replace("&", "").replace("mut ", "").strip()
+            if bty in ("str", "alloc::string::String") or bty.endswith(" str"):
+                # `&text[a..b]` on a string panics when an offset is not a character boundary; token texts come from
+                # the grammar and (through PUSH/POP/PEEK) from the input, so any byte offset can be inside a character
+                out.append(("string slice by byte offsets `%s`" % hirq.expr_text(x)[:40], x))
     return out
 
 
